@@ -10,6 +10,8 @@ mod c_bits;
 #[cfg(kani)]
 mod c_grid;
 #[cfg(kani)]
+mod c_fb;
+#[cfg(kani)]
 mod c_region;
 #[cfg(kani)]
 mod c_coding;
